@@ -89,6 +89,12 @@ CHECKS = {
     note="As C04. Stored third-party index files are not replayed (the harness generates its own).",
     technique="TLA+ P-spec trace validation by TLC of write/read round trips of real indexes",
     engine="BinIndex"),
+ "C19": dict(
+    category="model_checking", design_ref="DESIGN.md §5 C19",
+    text="Fai.tla derives the true byte layout of a FASTA file from its records and transcribes NewIndex's scanner and Seq.Read's loop; TLC checks on every small layout (widths, lengths, LF/CRLF, blank lines, final newline) that the scanner describes every record and that every range read with every buffer size returns exactly those bases then io.EOF. The model layouts, seeded real-scale layouts and edge cases are rendered to concrete FASTA and the real NewIndex, WriteTo/ReadFrom and File reads are validated by TLC (index values, position of every base, bytes call by call, io.EOF exactly at the end).",
+    note="Known finding (not repaired): names containing a double quote do not survive WriteTo/ReadFrom (csv-based reader). Trusted: TLC, the harness's FASTA renderer.",
+    technique="TLA+ layout spec + transcribed scanner/read loop, TLC exhaustive small layouts + TLC trace validation of real runs",
+    engine="Fai"),
 }
 NA_REASON = "check not built yet in this round (specification work in progress; see DESIGN.md §10 build order)"
 
@@ -121,6 +127,7 @@ def main():
 
 HOOK_COMMITS = ["4b6c86a", "f712ea4", "5dd3b6c", "b7bc5fc"]
 ENGINES = [
+ dict(name="Fai", path="spec/Fai", serves_properties=["C19"], kind_free_text="TLA+ Fai (FaiP/FaiI) + TLC MC + trace validation"),
  dict(name="BinIndex", path="spec/BinIndex", serves_properties=["C04", "C15"], kind_free_text="TLA+ IndexP/IndexI + TLC MC + trace validation"),
  dict(name="Coord", path="spec/Coord", serves_properties=["C16", "C04"], kind_free_text="TLA+ Cigar/Bins + TLC lemmas + trace validation"),
  dict(name="BgzfReader", path="spec/BgzfReader", serves_properties=["C01", "C02", "C03", "C09", "C10", "C13"], kind_free_text="TLA+ ReaderP/ReaderI + TLC MC + API trace validation"),
